@@ -1,7 +1,7 @@
 (* C15: with the start pointer, leading dimension, (KL,KU) and wrapper arguments that the translator reads from the sources,
    what ?gbmv computes for row i is the defining sum over the stored band of the engine, for both storage orders, every
    dimension and every number of sub- and super-diagonals. *)
-From Coq Require Import ZArith List Bool Lia.
+From Coq Require Import ZArith List Bool Lia Ring.
 From Adept Require Import Scalar Matmul MatmulProofs Band.
 From AdeptGen Require Import Gen_Band Gen_Engines.
 Import ListNotations.
@@ -37,4 +37,34 @@ Proof.
   - destruct (Z.leb_spec i j), (Z.geb_spec i j); try (f_equal; lia). assert (i = j) by lia. subst. f_equal. lia.
   - destruct (Z.leb_spec j i), (Z.leb_spec i j); try (f_equal; lia). assert (i = j) by lia. subst. f_equal. lia.
 Qed.
+
+(* symmetric matrix (either orientation) x matrix (row- or column-contiguous) through ?symm: the row-major variant of the
+   wrapper - marked "FIX! CHECK ROW MAJOR VERSION IS RIGHT" in cppblas.cpp - is right: cell (i,j) is the defining sum and
+   it is stored at (i,j) of the answer in the answer's own order *)
+Hypothesis Rth : ring_theory (o0 O) (o1 O) (oadd O) (omul O) (osub O) (oneg O) (@eq T).
+Lemma symv_read_engine (row_lower : bool) (upper : bool) (mem : Z -> T) (a0 off i k : Z) :
+  upper = row_lower ->
+  symv_read upper mem a0 off i k = mem (a0 + index (if row_lower then SymLo else SymUp) 0 0 i k off).
+Proof.
+  intros ->. unfold symv_read, index. destruct row_lower.
+  - destruct (Z.leb_spec i k), (Z.geb_spec i k); try (f_equal; lia). assert (i = k) by lia. subst. f_equal. lia.
+  - destruct (Z.leb_spec k i), (Z.leb_spec i k); try (f_equal; lia). assert (i = k) by lia. subst. f_equal. lia.
+Qed.
+Lemma symv_read_sym upper (mem : Z -> T) a0 lda i k : symv_read upper mem a0 lda i k = symv_read upper mem a0 lda k i.
+Proof.
+  unfold symv_read. destruct upper; destruct (Z.leb_spec i k), (Z.leb_spec k i); try reflexivity; try (f_equal; lia); assert (i = k) by lia; subst; reflexivity.
+Qed.
+Theorem symm_mm_correct (row_lower right_row : bool) (M N : Z) (mem : Z -> T) (left_ptr left_offset b0 rs i j : Z) :
+  adept_symm_mm O row_lower right_row M N mem left_ptr left_offset b0 rs i j = symm_mm_spec O row_lower right_row M mem left_ptr left_offset b0 rs i j.
+Proof.
+  unfold adept_symm_mm, symm_mm_spec, cppblas_symm_cell, symm_call_side_left, symm_uplo_of, right_elem.
+  destruct right_row; cbn [symm_row_major_args symm_col_major_args negb f_symm_cell]; apply (zsum_ext O); intros k Hk.
+  - (* row-major call: side Right on the transposed problem *)
+    rewrite (Rmul_comm Rth). rewrite symv_read_sym. rewrite (symv_read_engine row_lower) by (destruct row_lower; reflexivity).
+    f_equal. f_equal. lia.
+  - rewrite (symv_read_engine row_lower) by (destruct row_lower; reflexivity). reflexivity.
+Qed.
+Theorem symm_mm_addr (right_row : bool) (c0 cs i j : Z) :
+  cppblas_symm_addr right_row c0 cs i j = if right_row then c0 + i * cs + j else c0 + i + j * cs.
+Proof. unfold cppblas_symm_addr, f_symm_addr. destruct right_row; lia. Qed.
 End BandProofs.
